@@ -27,6 +27,8 @@ pub trait KeyH {
     fn h_sign(&self, m: &[u8]) -> Box<dyn SigH>;
     fn h_buf(&self) -> &[u8];
     fn h_pk(&self) -> PublicKey;
+    /// The key stored (`as_bytes`) and loaded again (`from_bytes`, on a copy): period, public key, signature of `m`.
+    fn h_reloaded(&self, m: &[u8]) -> Result<(u32, PublicKey, Vec<u8>), Error>;
 }
 
 macro_rules! kes_impl {
@@ -59,6 +61,13 @@ macro_rules! kes_impl {
             }
             fn h_pk(&self) -> PublicKey {
                 $key::to_pk(self)
+            }
+            fn h_reloaded(&self, m: &[u8]) -> Result<(u32, PublicKey, Vec<u8>), Error> {
+                let mut copy = <$key<'a> as KesSk<'a>>::as_bytes(self).to_vec();
+                let k2 = <$key<'_> as KesSk<'_>>::from_bytes(&mut copy[..])?;
+                let r = (<$key<'_> as KesSk<'_>>::get_period(&k2), $key::to_pk(&k2), <$key<'_> as KesSk<'_>>::sign(&k2, m).to_bytes().to_vec());
+                drop(k2);
+                Ok(r)
             }
         }
     };
